@@ -229,19 +229,24 @@ func (c *corruptor) txlist() {
 		// in-block conflicts with the first transaction (same sender)
 		first := st.next.Transactions[0]
 		sender := accA
-		mk := func(extra int64, why string) *transaction.Transaction {
-			o := txOpt{nonce: first.Nonce + 7777 + uint32(r.Intn(1000)), vub: st.h + 50, sysFee: sysFeeTransfer, conflicts: []util.Uint256{first.Hash()}, extraNet: extra}
+		mk := func(target *transaction.Transaction, extra int64, why string) *transaction.Transaction {
+			o := txOpt{nonce: first.Nonce + 7777 + uint32(r.Intn(1000)), vub: st.h + 50, sysFee: sysFeeTransfer, conflicts: []util.Uint256{target.Hash()}, extraNet: extra}
 			return st.label(mkTx(sender, accX.h, 12, o), true, why)
 		}
-		hi, lo := mk(500000, "conflicts-with-in-block-higher-fee"), mk(0, "conflicts-with-in-block-equal-fee")
+		// a richer replacement of the first transaction, so that a conflicting one can pay less
+		rich := st.label(mkTx(sender, accX.h, 10, txOpt{nonce: first.Nonce + 5555, vub: st.h + 50, sysFee: sysFeeTransfer, extraNet: 3000000}), true, "plain-rich")
+		hi := mk(first, 500000, "conflicts-with-in-block-higher-fee")
+		lo := mk(rich, 0, "conflicts-with-in-block-lower-fee")
+		withRich := func(t []*transaction.Transaction) []*transaction.Transaction { t[0] = rich; return t }
 		tl("inblock-conflict-after-higher-fee", app(hi), "both")
-		tl("inblock-conflict-after-equal-fee", app(lo), "resigned")
+		tl("inblock-conflict-after-lower-fee", func(t []*transaction.Transaction) []*transaction.Transaction { return append(withRich(t), lo) }, "resigned")
 		tl("inblock-conflict-before-higher-fee", func(t []*transaction.Transaction) []*transaction.Transaction {
 			return append([]*transaction.Transaction{hi}, t...)
 		}, "resigned")
-		tl("inblock-conflict-before-equal-fee", func(t []*transaction.Transaction) []*transaction.Transaction {
-			return append([]*transaction.Transaction{lo}, t...)
+		tl("inblock-conflict-before-lower-fee", func(t []*transaction.Transaction) []*transaction.Transaction {
+			return append([]*transaction.Transaction{lo}, withRich(t)...)
 		}, "resigned")
+		tl("rich-first(valid)", withRich, "resigned")
 	}
 	tl("add-valid-tx", app(st.extra), "both")
 	tl("add-expired", app(st.expired), "both")
